@@ -69,6 +69,17 @@ def implErrClass (post : List String) : String :=
     if n == "pfInvalidAction" || n == "pfIllegalRaise" || n == "injected" || n.startsWith "other:" then "backend" else n
   | _ => "?"
 
+/-- last published action, model vs. implementation. The `round` of a `ready` / `pay` entry is read by the engine from
+the hand state *when the event is emitted*; the answer that completes a request group races with the group's own
+completion (which moves the hand on), so the engine may stamp it with the round of the request or of the next state.
+Both are accepted for those two kinds; everything else must be equal. -/
+def lastAgrees (model impl : Option HD.Last) : Bool :=
+  match model, impl with
+  | some a, some b =>
+    a == b || ((a.action == "ready" || a.action == "pay") && { a with round := b.round } == b)
+  | none, none => true
+  | _, _ => false
+
 structure HDDrv where
   hist : Nat := 0
   model : Option State := none
@@ -126,7 +137,7 @@ def hdLine (d : HDDrv) (lineNo : Nat) (ts : List String) : HDDrv × List String 
         match statDiff with
         | some e => [s!"MISMATCH hd hist={d.hist} line={lineNo} field=statistics player={e.1} model={repr (maskSD (statsOf m1.players e.1))} impl={repr (maskSD e.2)}"]
         | none =>
-          if m1.last != last then [s!"MISMATCH hd hist={d.hist} line={lineNo} field=last-action model={repr m1.last} impl={repr last}"]
+          if !(lastAgrees m1.last last) then [s!"MISMATCH hd hist={d.hist} line={lineNo} field=last-action model={repr m1.last} impl={repr last}"]
           else if m1.endAt != endat then [s!"MISMATCH hd hist={d.hist} line={lineNo} field=deadline model={m1.endAt} impl={endat} arms={arms}"]
           else []
       -- 2. monitors
